@@ -39,6 +39,13 @@ pub struct Cfg {
     pub port: Option<PortF>,
     pub addr: Option<AddrF>,
     pub net: Option<NetF>,
+    /// how the library's filter objects are put together from the lists above (the documented
+    /// function depends on the *set* of entries, not on the calls that added them): 0 = one list
+    /// call (or single calls for one entry), 1 = list call for all but the last entry, then a
+    /// single call, 2 = single calls in order, 3 = single call for the last entry, then a list
+    /// call for the rest, 4 = single calls in reverse order, 5 = port lists assigned to the
+    /// public fields
+    pub style: u8,
 }
 
 impl Cfg {
@@ -129,21 +136,56 @@ macro_rules! builder {
             let mut cfg = FilterConfig::new().mode(if c.deny { FilterMode::Deny } else { FilterMode::Allow });
             if let Some(p) = &c.port {
                 let mut f = PortFilter::new();
-                // exercise both the single and the list builders
-                for (i, x) in p.src_ports.iter().enumerate() {
-                    if i == 0 {
-                        f = f.source(*x);
-                    } else {
-                        f = f.source_list(vec![*x]);
+                // the same sets through different sequences of builder calls
+                fn add(mut f: PortFilter, ports: &[u16], src: bool, style: u8, legacy_first_single: bool) -> PortFilter {
+                    let one = |f: PortFilter, x: u16| if src { f.source(x) } else { f.destination(x) };
+                    let many = |f: PortFilter, v: Vec<u16>| if src { f.source_list(v) } else { f.destination_list(v) };
+                    if ports.is_empty() {
+                        return f;
+                    }
+                    let (last, rest) = (ports[ports.len() - 1], &ports[..ports.len() - 1]);
+                    match style {
+                        1 => {
+                            if !rest.is_empty() {
+                                f = many(f, rest.to_vec());
+                            }
+                            one(f, last)
+                        }
+                        2 => ports.iter().fold(f, |f, x| one(f, *x)),
+                        3 => {
+                            f = one(f, last);
+                            if !rest.is_empty() {
+                                f = many(f, rest.to_vec());
+                            }
+                            f
+                        }
+                        4 => ports.iter().rev().fold(f, |f, x| one(f, *x)),
+                        5 => {
+                            if src {
+                                f.source_ports = ports.to_vec();
+                            } else {
+                                f.destination_ports = ports.to_vec();
+                            }
+                            f
+                        }
+                        _ if legacy_first_single => {
+                            // single call for the first entry, one-element list calls for the others
+                            for (i, x) in ports.iter().enumerate() {
+                                f = if i == 0 { one(f, *x) } else { many(f, vec![*x]) };
+                            }
+                            f
+                        }
+                        _ => {
+                            if ports.len() > 1 {
+                                many(f, ports.to_vec())
+                            } else {
+                                one(f, ports[0])
+                            }
+                        }
                     }
                 }
-                if p.dst_ports.len() > 1 {
-                    f = f.destination_list(p.dst_ports.clone());
-                } else {
-                    for x in &p.dst_ports {
-                        f = f.destination(*x);
-                    }
-                }
+                f = add(f, &p.src_ports, true, c.style, true);
+                f = add(f, &p.dst_ports, false, c.style, false);
                 for r in &p.src_ranges {
                     f = f.source_range(r.0..r.1);
                 }
@@ -158,11 +200,35 @@ macro_rules! builder {
             if let Some(a) = &c.addr {
                 let mut f = IpFilter::new();
                 let strs: Vec<String> = a.addrs.iter().map(|x| x.to_string()).collect();
-                if strs.len() > 1 {
-                    f = f.allow_list(strs.iter().map(|s| s.as_str()).collect()).expect("valid ip");
-                } else {
-                    for s in &strs {
-                        f = f.allow(s).expect("valid ip");
+                match c.style {
+                    1 | 3 if strs.len() > 1 => {
+                        let (last, rest) = (&strs[strs.len() - 1], &strs[..strs.len() - 1]);
+                        if c.style == 3 {
+                            f = f.allow(last).expect("valid ip");
+                        }
+                        f = f.allow_list(rest.iter().map(|s| s.as_str()).collect()).expect("valid ip");
+                        if c.style == 1 {
+                            f = f.allow(last).expect("valid ip");
+                        }
+                    }
+                    2 => {
+                        for s in &strs {
+                            f = f.allow(s).expect("valid ip");
+                        }
+                    }
+                    4 => {
+                        for s in strs.iter().rev() {
+                            f = f.allow(s).expect("valid ip");
+                        }
+                    }
+                    _ => {
+                        if strs.len() > 1 {
+                            f = f.allow_list(strs.iter().map(|s| s.as_str()).collect()).expect("valid ip");
+                        } else {
+                            for s in &strs {
+                                f = f.allow(s).expect("valid ip");
+                            }
+                        }
                     }
                 }
                 match (a.src, a.dst) {
@@ -175,11 +241,35 @@ macro_rules! builder {
             if let Some(n) = &c.net {
                 let mut f = SubnetFilter::new();
                 let strs: Vec<String> = n.nets.iter().map(|(a, p)| format!("{a}/{p}")).collect();
-                if strs.len() > 1 {
-                    f = f.allow_list(strs.iter().map(|s| s.as_str()).collect()).expect("valid cidr");
-                } else {
-                    for s in &strs {
-                        f = f.allow(s).expect("valid cidr");
+                match c.style {
+                    1 | 3 if strs.len() > 1 => {
+                        let (last, rest) = (&strs[strs.len() - 1], &strs[..strs.len() - 1]);
+                        if c.style == 3 {
+                            f = f.allow(last).expect("valid cidr");
+                        }
+                        f = f.allow_list(rest.iter().map(|s| s.as_str()).collect()).expect("valid cidr");
+                        if c.style == 1 {
+                            f = f.allow(last).expect("valid cidr");
+                        }
+                    }
+                    2 => {
+                        for s in &strs {
+                            f = f.allow(s).expect("valid cidr");
+                        }
+                    }
+                    4 => {
+                        for s in strs.iter().rev() {
+                            f = f.allow(s).expect("valid cidr");
+                        }
+                    }
+                    _ => {
+                        if strs.len() > 1 {
+                            f = f.allow_list(strs.iter().map(|s| s.as_str()).collect()).expect("valid cidr");
+                        } else {
+                            for s in &strs {
+                                f = f.allow(s).expect("valid cidr");
+                            }
+                        }
                     }
                 }
                 match (n.src, n.dst) {
@@ -237,6 +327,10 @@ pub fn port_variants() -> Vec<(&'static str, Option<PortF>)> {
         ("any:empty", pf(&[], &[], &[], &[], true)),
         ("empty", pf(&[], &[], &[], &[], false)),
         ("srcR[1,65535)dst[65535]", pf(&[], &[65535], &[(1, 65535)], &[], false)),
+        // lists in no particular order, a repeated entry
+        ("dst[80,443,8000,1]", pf(&[], &[80, 443, 8000, 1], &[], &[], false)),
+        ("src[9000,80,443,80]", pf(&[9000, 80, 443, 80], &[], &[], &[], false)),
+        ("any:dst[8000,79]+src[65535,0]", pf(&[65535, 0], &[8000, 79], &[], &[], true)),
     ]
 }
 
@@ -332,13 +426,15 @@ fn random_cfg(r: &mut Rng) -> Cfg {
             _ => r.u16(),
         }
     };
-    let mut c = Cfg { deny: r.chance(1, 2), ..Default::default() };
+    let mut c = Cfg { deny: r.chance(1, 2), style: r.below(6) as u8, ..Default::default() };
     if r.chance(3, 4) {
         let mut f = PortF { any: r.chance(1, 4), ..Default::default() };
-        for _ in 0..r.below(3) {
+        // up to 2 entries usually, sometimes longer lists (in no particular order)
+        let long = r.chance(1, 5);
+        for _ in 0..r.below(if long { 9 } else { 3 }) {
             f.src_ports.push(bport(r));
         }
-        for _ in 0..r.below(3) {
+        for _ in 0..r.below(if long { 9 } else { 3 }) {
             f.dst_ports.push(bport(r));
         }
         for _ in 0..r.below(3) {
@@ -458,7 +554,7 @@ pub fn run(ctx: &mut Ctx) {
                     if !ctx.mine(index) {
                         continue;
                     }
-                    let c = Cfg { deny, port: p.clone(), addr: a.clone(), net: n.clone() };
+                    let c = Cfg { deny, port: p.clone(), addr: a.clone(), net: n.clone(), style: (index % 6) as u8 };
                     let libs = build_all(&c);
                     let tag = format!("{}/{pn}/{an}/{nn}", if deny { "deny" } else { "allow" });
                     // quick: ports fully crossed with a strided subset of address pairs, and
